@@ -2,8 +2,8 @@
    the spec json_of: proofs/T2JBytesProofs.v) is run on the case's thrift bytes and its TEXT is compared with the text of
    t2j.BinaryConv.Do — byte for byte, except at double lexemes, where the walk writes a marker carrying the bits and the
    implementation's lexeme is judged by value (lex_is_f64: dec2f64 and the rounding spec, as check 301 does).
-   The walk models api.js_conv value mapping, WriteDefaultField / WriteRequireField and the response-base extraction at the
-   root ([t2j_walk_root]); only ConvertException on a struct root is outside it (skipped).  WriteOptionalField (bit 11) has no
+   The walk models api.js_conv value mapping, WriteDefaultField / WriteRequireField, the response-base extraction and
+   ConvertException at the root ([t2j_walk_rootx]): no case is skipped for its options.  WriteOptionalField (bit 11) has no
    effect on a descriptor built without SetOptionalBitmap: the walk ignores it and the implementation must agree.
    Bytes that are not the encoding of a well-formed conforming value (truncations, garbage: the walk runs on them all the
    same) are outside C03: a disagreement there is drift. *)
@@ -24,10 +24,6 @@ Definition root_is_struct (d : tdesc) : bool := match d with DStruct _ => true |
 Definition root_has_base (d : tdesc) : bool :=
   match d with DStruct fs => existsb (fun f => f_respbase (fst f)) fs | _ => false end.
 
-(* the converter is the walk on this case *)
-Definition in_walk_domain (o : Z) (d : tdesc) : bool :=
-  negb (o_convert_exception o && root_is_struct d).
-
 (* the response-base fields of the root are structs *)
 Definition base_is_structb (d : tdesc) : bool :=
   match d with
@@ -39,26 +35,29 @@ Definition base_is_structb (d : tdesc) : bool :=
    dom: the bytes are the encoding of a well-formed conforming value (the theorem's domain);
    same_doc: the implementation's text still parses to a document denoting the spec tree (computed only on a text mismatch):
    another spelling of the right value is not a violation of C03, it is reported as drift 44 *)
-Definition judge_304 (w : option (list Z * list Z)) (exact : unit -> list field) (same_doc : unit -> bool)
+Definition judge_304 (w : option wres) (exact : unit -> list field) (same_doc : unit -> bool)
                      (ec : Z) (out : list Z) (dom : bool) : verdict :=
   if ec =? 3 then (if dom then VBad 8 [] else VDrift 48) else
-  match w with
-  | None => if ec =? 0 then (if dom then VBad 41 [] else VDrift 41) else VOk
-  | Some (m, _) =>
-    if negb (ec =? 0) then (if dom then VBad 42 (exact tt) else VDrift 42)
+  let cmp (want : Z) (m : list Z) :=
+    if negb (ec =? want) then (if dom then VBad 42 (exact tt) else VDrift 42)
     else if text_agrees (S (length m)) m out then VOk
     else if negb dom then VDrift 43
     else if same_doc tt then VDrift 44
-    else VBad 43 (exact tt)
+    else VBad 43 (exact tt) in
+  match w with
+  | None => if (ec =? 0) || (ec =? 2) then (if dom then VBad 41 [] else VDrift 41) else VOk
+  | Some (WText m) => cmp 0 m           (* a document with a nil error *)
+  | Some (WExc m) => cmp 2 m            (* ConvertException: the text of the returned (non-dynamicgo) error *)
   end.
 
-(* 304: fields = options, descriptor shape..., thrift bytes, error class (0 nil, 1 dynamicgo error, 2 other error, 3 panic), output text *)
+(* 304: fields = options, descriptor shape..., thrift bytes, error class (0 nil, 1 dynamicgo error, 2 other error = exception text,
+   3 panic), output text (error text for class 2) *)
 Definition check_304 (fs : list field) : verdict :=
   match fs with
   | FZ o :: rest =>
     match parse_desc (S (length rest)) rest with
     | Some (d, [FB tb; FZ ec; FB out]) =>
-      if negb (in_walk_domain o d && desc_wf d && base_is_structb d) then VSkip else
+      if negb (desc_wf d && base_is_structb d) then VSkip else
       let ow := o mod 2048 in                     (* bits 0..10: what the walk reads (bit 11, WriteOptionalField, has no effect) *)
       let n := S (length tb) in                    (* nesting cannot exceed the number of bytes *)
       let dv :=
@@ -69,11 +68,11 @@ Definition check_304 (fs : list field) : verdict :=
                     end
         | None => None
         end in
-      judge_304 (t2j_walk_root fd_mark ow n d tb)
-                (fun _ => match t2j_walk_root f64_exact_lexeme ow n d tb with Some (t, _) => [FB t] | None => [] end)
+      judge_304 (t2j_walk_rootx fd_mark ow n d tb)
+                (fun _ => match t2j_walk_rootx f64_exact_lexeme ow n d tb with Some (WText t) | Some (WExc t) => [FB t] | None => [] end)
                 (fun _ => match dv with
                           | Some v => match fst (t2j_specw ow d v), json_parse out with
-                                      | TOk e, Some j => jmatch e j
+                                      | TOk e, Some j | TExc e, Some j => jmatch e j
                                       | _, _ => false
                                       end
                           | None => false
